@@ -179,7 +179,8 @@ pub fn handle(op: &str, cmd: &Value) -> Value {
             let id = cmd["id"].as_u64().unwrap() as u32;
             let mut b = PortableRegistryBuilder::new();
             for i in 0..n { b.register_type(ty_of(i)); }
-            let r = b.finish();
+            let mut r = b.finish();
+            if let Some(f) = cmd["id_fields"].as_array() { for (t, v) in r.types.iter_mut().zip(f) { t.id = v.as_u64().unwrap() as u32; } }
             let got = r.resolve(id).map(ty_index);
             let want = if (id as u64) < n { Some(id as u64) } else { None };
             json!({"ok": got == want})
